@@ -3,6 +3,7 @@ package c16
 
 import (
 	"fmt"
+	"io/ioutil"
 	"runtime"
 	"time"
 
@@ -107,6 +108,8 @@ type hostile struct {
 	ch     byte
 	msg    cs.ConsensusMessage
 	raw    []byte
+	// more: follow-up messages of the same hostile unit (the parts of a hostile block), same channel
+	more []cs.ConsensusMessage
 }
 
 // gen builds one hostile message for victim state rs.
@@ -128,6 +131,64 @@ func gen(r *rng.R, sim *detsim.Sim, rs *cstypes.RoundState, att attacker, known 
 		}
 	}
 	attIdx, _ := rs.Validators.GetByAddress(att.key.PubKey().Address())
+	if r.Chance(0.12) {
+		// A CONSISTENT proposal: correctly signed (when the attacker holds the proposer's key), its part-set
+		// header really is the Merkle root of the parts that follow - but the bytes the parts reassemble to are
+		// not a well-formed block. They reach the decoder inside the state machine.
+		var bz []byte
+		f := ""
+		var real []byte
+		if rs.ProposalBlockParts != nil && rs.ProposalBlockParts.IsComplete() {
+			real, _ = ioutil.ReadAll(rs.ProposalBlockParts.GetReader())
+		}
+		switch x := r.Intn(9); {
+		case x == 0:
+			bz, f = []byte{0xc0}, "block=empty-list "
+		case x == 1:
+			bz, f = []byte{0x80}, "block=empty-string "
+		case x == 2:
+			bz, f = r.Bytes(1+r.Intn(64)), "block=random-bytes "
+		case x == 3 && len(real) > 2:
+			bz, f = append([]byte{}, real[:1+r.Intn(len(real)-1)]...), "block=truncated-real "
+		case x == 4 && len(real) > 2:
+			bz = append([]byte{}, real...)
+			bz[r.Intn(len(bz))] ^= byte(1 << uint(r.Intn(8)))
+			f = "block=bitflipped-real "
+		case x == 5:
+			// a list of n empty lists / empty strings: every field of the block decodes to its zero value
+			n := 1 + r.Intn(8)
+			bz = []byte{byte(0xc0 + n)}
+			for i := 0; i < n; i++ {
+				bz = append(bz, []byte{0xc0, 0x80}[r.Intn(2)])
+			}
+			f = "block=list-of-empties "
+		case x == 6:
+			if b, err := ser.EncodeToBytes(&types.Block{}); err == nil {
+				bz, f = b, "block=zero-value-struct "
+			}
+		case x == 7:
+			if b, err := ser.EncodeToBytes(&types.Block{Header: &types.Header{Height: h, ChainID: sim.ChainID}}); err == nil {
+				bz, f = b, "block=header-only "
+			}
+		default:
+			if b, err := ser.EncodeToBytes(&types.Block{Header: &types.Header{Height: h, ChainID: sim.ChainID}, Data: &types.Data{}, Evidence: types.EvidenceData{}}); err == nil {
+				bz, f = b, "block=no-last-commit "
+			}
+		}
+		if len(bz) > 0 {
+			psz := []int{1, 7, 64, 4096}[r.Intn(4)]
+			ps := types.NewPartSetFromData(bz, psz)
+			p := types.NewProposal(h, round, ps.Header(), -1, types.BlockID{})
+			p.Timestamp = time.Unix(1569409200, 0).UTC()
+			p.Type = types.ProposalTypeNormal
+			p.Signature = sign(p.SignBytes(sim.ChainID))
+			hm := &hostile{Kind: "ProposalOverHostileBlock", Fields: f, ch: cs.DataChannel, msg: &cs.ProposalMessage{Proposal: p}}
+			for i := 0; i < ps.Total(); i++ {
+				hm.more = append(hm.more, &cs.BlockPartMessage{Height: h, Round: round, Part: ps.GetPart(i)})
+			}
+			return hm
+		}
+	}
 	switch k := r.Intn(13); {
 	case k < 3: // vote
 		v := &types.Vote{Height: h, Round: round, Type: types.VoteTypePrevote, ValidatorIndex: attIdx, ValidatorSize: nvals,
@@ -313,6 +374,7 @@ func run(c *core.Ctx) {
 		return
 	}
 	var sent []hostile
+	var history []*hostile
 	fpKinds := ""
 	processed := 0
 	if r.Chance(0.7) {
@@ -349,7 +411,25 @@ func run(c *core.Ctx) {
 		if rs.ProposalBlock != nil && rs.ProposalBlockParts != nil {
 			known = append(known, types.BlockID{Hash: rs.ProposalBlock.Hash(), PartsHeader: rs.ProposalBlockParts.Header()})
 		}
+		// block ids that already have +2/3 at the victim (a conflicting vote FOR such a block is the one the vote
+		// set accepts from an equivocating validator)
+		if rs.Votes != nil {
+			for _, vs := range []*types.VoteSet{rs.Votes.Prevotes(rs.Round), rs.Votes.Precommits(rs.Round)} {
+				if vs != nil {
+					if bid, ok := vs.TwoThirdsMajority(); ok {
+						known = append(known, bid)
+					}
+				}
+			}
+		}
 		hm := gen(r, sim, rs, att, known)
+		if len(history) > 0 && r.Chance(0.2) {
+			// the very same message again (same bytes, same timestamp, same signature)
+			hm = history[r.Intn(len(history))]
+			c.Count("hostile_messages_repeated_verbatim", 1)
+		} else {
+			history = append(history, hm)
+		}
 		raw := hm.raw
 		if raw == nil {
 			raw, err = ser.EncodeToBytesWithType(hm.msg)
@@ -364,6 +444,26 @@ func run(c *core.Ctx) {
 		c.Count("state:"+rs.Step.String(), 1)
 		sent = append(sent, hostile{Kind: hm.Kind, Fields: hm.Fields + "role=" + att.role + " state=" + rs.Step.String()})
 		fpKinds += hm.Kind[:2] + hm.Fields
+		// a hostile message may be (or decode to) a correctly signed vote of a real validator: the victim counts
+		// it, so the trace oracle of the continuation has to know it was delivered
+		{
+			dm := hm.msg
+			if dm == nil {
+				var x cs.ConsensusMessage
+				func() {
+					defer func() { recover() }()
+					if err := ser.DecodeBytesWithType(raw, &x); err == nil {
+						dm = x
+					}
+				}()
+			}
+			if vm, ok := dm.(*cs.VoteMessage); ok && vm != nil && vm.Vote != nil {
+				func() {
+					defer func() { recover() }()
+					sim.Mon.NoteDelivered(victim, vm.Vote)
+				}()
+			}
+		}
 		var m0, m1 runtime.MemStats
 		runtime.ReadMemStats(&m0)
 		if p := rh.Receive(hm.ch, raw); p != nil {
@@ -373,6 +473,23 @@ func run(c *core.Ctx) {
 			c.Count("accepted_by_reactor", 1)
 		}
 		n, p, stack := victim.CS.VerifDrainPeerQueue()
+		for _, fm := range hm.more {
+			if p != nil {
+				break
+			}
+			fraw, err := ser.EncodeToBytesWithType(fm)
+			if err != nil {
+				continue
+			}
+			if pp := rh.Receive(hm.ch, fraw); pp != nil {
+				c.Count("reactor_panics_recovered_per_connection", 1)
+				c.Count("reactor_panic:"+detsim.PanicClass(pp), 1)
+			}
+			var n2 int
+			n2, p, stack = victim.CS.VerifDrainPeerQueue()
+			n += n2
+			c.Count("hostile_block_parts_delivered", 1)
+		}
 		processed += n
 		c.Count("processed_by_state_machine", int64(n))
 		if p != nil {
